@@ -34,8 +34,33 @@ func (e *omEnv) ptrAlias(v ssa.Value, d int) bool {
 		return e.ptrAlias(x.X, d+1)
 	case *ssa.FieldAddr:
 		return e.ptrAlias(x.X, d+1)
+	case *ssa.Call:
+		if a := castHelperArg(e.P, x); a != nil {
+			return e.ptrAlias(a, d+1)
+		}
 	}
 	return false
+}
+
+// castHelperArg: the call is to a module helper that does nothing but hand back its one pointer parameter under
+// another pointer type (func slot(p unsafe.Pointer) *T { return (*T)(p) }); returns the argument.
+func castHelperArg(P *Program, call *ssa.Call) ssa.Value {
+	g := call.Call.StaticCallee()
+	if g == nil || !P.isModuleFunc(g) || g.Blocks == nil || len(g.Params) != 1 || len(call.Call.Args) != 1 || g.Signature.Results().Len() != 1 || len(g.Blocks) != 1 {
+		return nil
+	}
+	for _, in := range g.Blocks[0].Instrs {
+		switch in.(type) {
+		case *ssa.Convert, *ssa.ChangeType, *ssa.Return, *ssa.DebugRef:
+		default:
+			return nil
+		}
+	}
+	rets := returnsOf(g)
+	if len(rets) != 1 || stripConv(stripChange(stripConv(rets[0].Results[0]))) != ssa.Value(g.Params[0]) {
+		return nil
+	}
+	return call.Call.Args[0]
 }
 
 // samePtr: v is p itself (possibly converted): the whole value, not a part of it.
@@ -51,6 +76,10 @@ func (e *omEnv) samePtr(v ssa.Value, d int) bool {
 		return e.samePtr(x.X, d+1)
 	case *ssa.ChangeType:
 		return e.samePtr(x.X, d+1)
+	case *ssa.Call:
+		if a := castHelperArg(e.P, x); a != nil {
+			return e.samePtr(a, d+1)
+		}
 	}
 	return false
 }
